@@ -6,6 +6,7 @@
    `elif` clauses are kept as a list (CPython nests them as orelse=[If]; an orelse that is a single If starting in the
    column of the outer `if` is an elif -- the harness does this split and the tie checks it).                       *)
 From Coq Require Import ZArith List String Bool.
+From Gen Require Import Magic.
 Import ListNotations.
 Open Scope Z_scope.
 
@@ -41,7 +42,14 @@ with exprs := ENil | ECons (e : expr) (es : exprs)
 with args := ANil | ACons (k : akind) (e : expr) (a : args)
 with cmps := CNil | CCons (op : cmpop) (e : expr) (c : cmps).
 
+(* parameters of a `def`, in CPython's order (posonly, args, vararg, kwonly, kwarg), each with its default.
+   p = the ast.arg position (the NAME only);  sp = the extent of the parameter as written, i.e. including a leading
+   `*` / `**` (equal to p for the other kinds): the native front end reports sp, CPython p. *)
+Inductive pkind := KPosOnly | KPos | KStar | KKwOnly | KDStar.
+Inductive params := PNil | PCons (p sp : pos) (name : string) (k : pkind) (d : option expr) (rest : params).
+
 Inductive stmt :=
+| SDef (p : pos) (name : string) (ps : params) (b0 : stmt) (bs : stmts)
 | SExpr (p : pos) (e : expr)
 | SAssign (p : pos) (targets : exprs) (value : expr)
 | SReturn (p : pos) (v : option expr)
@@ -59,7 +67,7 @@ Definition epos (e : expr) : pos :=
   end.
 Definition spos (s : stmt) : pos :=
   match s with
-  | SExpr p _ | SAssign p _ _ | SReturn p _ | SPass p | SWhile p _ _ _ _ | SFor p _ _ _ _ _ | SIf p _ _ _ _ _ => p
+  | SDef p _ _ _ _ | SExpr p _ | SAssign p _ _ | SReturn p _ | SPass p | SWhile p _ _ _ _ | SFor p _ _ _ _ _ | SIf p _ _ _ _ _ => p
   end.
 
 (* ---------------------------------------------------------------- mypy trees *)
@@ -79,7 +87,11 @@ Inductive mexpr :=
 | MTuple (p : pos) (items : list mexpr)
 | MList (p : pos) (items : list mexpr).
 
+(* Argument (position p) with its Var (position vp) *)
+Inductive marg := MArg (p vp : pos) (name : string) (kind : argkind) (init : option mexpr) (pos_only : bool).
+
 Inductive mstmt :=
+| MFuncDef (p : pos) (name : string) (args : list marg) (body : mblock)
 | MExprStmt (p : pos) (e : mexpr)
 | MAssign (p : pos) (lvalues : list mexpr) (rvalue : mexpr) (new_syntax : bool)
 | MReturn (p : pos) (e : option mexpr)
@@ -96,7 +108,7 @@ Definition mepos (e : mexpr) : pos :=
   end.
 Definition mspos (s : mstmt) : pos :=
   match s with
-  | MExprStmt p _ | MAssign p _ _ _ | MReturn p _ | MPass p | MWhile p _ _ _ | MFor p _ _ _ _ | MIf p _ _ _ => p
+  | MFuncDef p _ _ _ | MExprStmt p _ | MAssign p _ _ _ | MReturn p _ | MPass p | MWhile p _ _ _ | MFor p _ _ _ _ | MIf p _ _ _ => p
   end.
 Definition mbpos (b : mblock) : pos := let 'MBlock p _ _ := b in p.
 
@@ -175,6 +187,30 @@ with conv_args (a : args) : list mexpr :=
 with conv_cmps (c : cmps) : list mexpr :=
   match c with CNil => [] | CCons _ e c' => conv_e e :: conv_cmps c' end.
 
+(* transform_args / make_argument; do_func_def then forces pos_only for the special methods *)
+Definition param_kind (k : pkind) (d : option expr) : argkind :=
+  match k, d with
+  | KPosOnly, None | KPos, None => ARG_POS
+  | KPosOnly, Some _ | KPos, Some _ => ARG_OPT
+  | KStar, _ => ARG_STAR
+  | KKwOnly, None => ARG_NAMED
+  | KKwOnly, Some _ => ARG_NAMED_OPT
+  | KDStar, _ => ARG_STAR2
+  end.
+Definition param_pos_only (k : pkind) (name : string) : bool :=
+  match k with KPosOnly => true | _ => false end || argument_elide_name name.
+(* what the serializer writes: the `__name` rule is applied to ordinary positional parameters only *)
+Definition emit_pos_only (k : pkind) (name : string) : bool :=
+  match k with KPosOnly => true | KPos => argument_elide_name name | _ => false end.
+Definition force_pos_only (b : bool) (l : list marg) : list marg :=
+  if b then map (fun a => let 'MArg p vp n k i _ := a in MArg p vp n k i true) l else l.
+Fixpoint conv_params (ps : params) : list marg :=
+  match ps with
+  | PNil => []
+  | PCons p _ n k d r =>
+      MArg p p n (param_kind k d) (match d with Some e => Some (conv_e e) | None => None end) (param_pos_only k n) :: conv_params r
+  end.
+
 (* set_block_lines: first.lineno/col_offset, last.end_lineno/end_col_offset of the *ast* statements *)
 Fixpoint last_spos (s0 : stmt) (ss : stmts) : pos :=
   match ss with SNil => spos s0 | SCons s ss' => last_spos s ss' end.
@@ -182,6 +218,9 @@ Definition block_pos (s0 : stmt) (ss : stmts) : pos := span (spos s0) (last_spos
 
 Fixpoint conv_s (s : stmt) {struct s} : mstmt :=
   match s with
+  | SDef p name ps b0 bs =>
+      MFuncDef p name (force_pos_only (special_function_elide_names name) (conv_params ps))
+        (MBlock (block_pos b0 bs) false (conv_s b0 :: conv_ss bs))
   | SExpr p e => MExprStmt p (conv_e e)
   | SAssign p t v => MAssign p (conv_es t) (conv_e v) false
   | SReturn p v => MReturn p (match v with Some e => Some (conv_e e) | None => None end)
@@ -212,7 +251,7 @@ Inductive tag :=
 | LITERAL_NONE | LITERAL_INT | LITERAL_STR | LIST_GEN | LIST_INT | LOCATION | END_TAG
 | EXPR_STMT | CALL_EXPR | NAME_EXPR | STR_EXPR | MEMBER_EXPR | OP_EXPR | INT_EXPR | IF_STMT | ASSIGNMENT_STMT
 | TUPLE_EXPR | BLOCK | LIST_EXPR | RETURN_STMT | WHILE_STMT | COMPARISON_EXPR | BOOL_OP_EXPR | PASS_STMT | UNARY_EXPR
-| FOR_STMT | CONDITIONAL_EXPR.
+| FOR_STMT | CONDITIONAL_EXPR | FUNC_DEF_STMT.
 
 (* primitive reads of librt.internal: read_tag / read_int / read_str / read_bool *)
 Inductive tok := T (t : tag) | I (z : Z) | S (s : string) | B (b : bool).
@@ -270,10 +309,28 @@ with emit_cmps (c : cmps) (k : list tok) {struct c} : list tok :=
 
 (* a block: BLOCK LIST_GEN n is_unreachable stmts END_TAG   (no location when non-empty; is_unreachable is computed
    by the serializer from version/platform tests -- none in the fragment) *)
+Fixpoint len_params (ps : params) : nat := match ps with PNil => O | PCons _ _ _ _ _ r => Datatypes.S (len_params r) end.
+(* one parameter: name, kind, has_type(false), has_default [default], pos_only, location (no END_TAG) *)
+Fixpoint emit_params (ps : params) (k : list tok) : list tok :=
+  match ps with
+  | PNil => k
+  | PCons _ sp n kd d r =>
+      str_k n (int_k (argkind_idx (param_kind kd d)) (B false ::
+        match d with
+        | Some e => B true :: emit_e e (B (emit_pos_only kd n) :: loc_k sp (emit_params r k))
+        | None => B false :: B (emit_pos_only kd n) :: loc_k sp (emit_params r k)
+        end))
+  end.
+
 Definition blk (n : nat) (inner : list tok) : list tok := T BLOCK :: T LIST_GEN :: I (Z.of_nat n) :: B false :: inner.
 
 Fixpoint emit_s (s : stmt) (k : list tok) {struct s} : list tok :=
   match s with
+  | SDef p name ps b0 bs =>
+      (* name, parameters, body, is_async, has_type_params, has_return_type, location *)
+      T FUNC_DEF_STMT :: str_k name (T LIST_GEN :: I (Z.of_nat (len_params ps)) :: emit_params ps
+        (blk (Datatypes.S (len_ss bs)) (emit_s b0 (emit_ss bs (T END_TAG ::
+          B false :: B false :: B false :: loc_k p (T END_TAG :: k))))))
   | SExpr p e => T EXPR_STMT :: emit_e e (T END_TAG :: k)
   | SAssign p t v =>
       T ASSIGNMENT_STMT :: T LIST_GEN :: I (Z.of_nat (len_es t)) :: emit_es t (emit_e v (B false :: B false :: loc_k p (T END_TAG :: k)))
@@ -501,6 +558,23 @@ Definition read_elif_with (re : rd mexpr) (rb : rd mblock) : rd (mexpr * mblock)
   | None => None
   end.
 
+(* read_parameters (one item) *)
+Definition read_param_with (re : rd mexpr) : rd marg := fun ts =>
+  match ts with
+  | T LITERAL_STR :: S n :: T LITERAL_INT :: I kd :: B false :: B true :: ts1 =>
+      match nth_error ARG_KINDS (Z.to_nat kd), re ts1 with
+      | Some k, Some (e, B po :: ts2) =>
+          match read_loc ts2 with Some (p, ts3) => Some (MArg p p n k (Some e) po, ts3) | None => None end
+      | _, _ => None
+      end
+  | T LITERAL_STR :: S n :: T LITERAL_INT :: I kd :: B false :: B false :: B po :: ts1 =>
+      match nth_error ARG_KINDS (Z.to_nat kd) with
+      | Some k => match read_loc ts1 with Some (p, ts2) => Some (MArg p p n k None po, ts2) | None => None end
+      | None => None
+      end
+  | _ => None    (* has_type = true: annotated parameter, outside the fragment *)
+  end.
+
 Fixpoint read_stmt (fuel : nat) (ts : list tok) {struct fuel} : option (mstmt * list tok) :=
   match fuel with
   | O => None
@@ -509,6 +583,16 @@ Fixpoint read_stmt (fuel : nat) (ts : list tok) {struct fuel} : option (mstmt * 
     let read_optional_block := read_optional_block_with (read_stmt f) in
     let read_elif := read_elif_with (read_expr f) read_block in
     match ts with
+    | T FUNC_DEF_STMT :: T LITERAL_STR :: S name :: T LIST_GEN :: I n :: ts1 =>
+        match read_n (read_param_with (read_expr f)) (Z.to_nat n) ts1 with
+        | Some (args, ts2) =>
+          match read_block ts2 with
+          | Some (b, B false :: B false :: B false :: ts3) =>
+              loc_finish (fun p => MFuncDef p name (force_pos_only (special_function_elide_names name) args) b) ts3
+          | _ => None   (* async / PEP 695 type parameters / return annotation: outside the fragment *)
+          end
+        | None => None
+        end
     | T EXPR_STMT :: ts1 =>
         match read_expr f ts1 with
         | Some (e, ts2) => finish (MExprStmt (mepos e) e) ts2
@@ -614,8 +698,18 @@ with wf_es (es : exprs) : Prop := match es with ENil => True | ECons e es' => wf
 with wf_args (a : args) : Prop := match a with ANil => True | ACons _ e a' => wf_e e /\ wf_args a' end
 with wf_cmps (c : cmps) : Prop := match c with CNil => True | CCons _ e c' => wf_e e /\ wf_cmps c' end.
 
+(* sp = p: not a `*args` / `**kwargs` parameter; and not a keyword-only parameter called `__x` (fastparse makes it
+   positional-only, the serializer does not) *)
+Fixpoint wf_params (ps : params) : Prop :=
+  match ps with
+  | PNil => True
+  | PCons p sp n k d r =>
+      sp = p /\ emit_pos_only k n = param_pos_only k n /\ match d with Some e => wf_e e | None => True end /\ wf_params r
+  end.
+
 Fixpoint wf_s (s : stmt) : Prop :=
   match s with
+  | SDef _ _ ps b0 bs => wf_params ps /\ wf_s b0 /\ wf_ss bs
   | SExpr p e => p = epos e /\ wf_e e
   | SAssign _ t v => wf_es t /\ wf_e v
   | SReturn _ v => match v with Some e => wf_e e | None => True end
